@@ -19,10 +19,18 @@ fn js<T: serde::Serialize>(v: &T) -> String {
     }
 }
 fn jd<T: for<'a> serde::Deserialize<'a>>(a: &A) -> Option<Result<T, ()>> {
-    let s = String::from_utf8(unhx(a.get("j")?)?).ok();
-    Some(match s {
-        Some(s) => serde_json::from_str::<T>(&s).map_err(|_| ()),
-        None => Err(()),
+    let bytes = unhx(a.get("j")?)?;
+    // the same JSON document through the three serde_json entry points (`via`, default: from_str)
+    Some(match a.get("via").unwrap_or("str") {
+        "reader" => serde_json::from_reader::<_, T>(std::io::Cursor::new(&bytes)).map_err(|_| ()),
+        "value" => serde_json::from_slice::<serde_json::Value>(&bytes)
+            .map_err(|_| ())
+            .and_then(|v| serde_json::from_value::<T>(v).map_err(|_| ())),
+        "str" => match String::from_utf8(bytes) {
+            Ok(s) => serde_json::from_str::<T>(&s).map_err(|_| ()),
+            Err(_) => Err(()),
+        },
+        _ => return None,
     })
 }
 fn sigshare<C: Ciphersuite>(s: &str) -> Option<SignatureShare<C>> {
